@@ -286,8 +286,10 @@ def main(argv=None):
                 "distinct_nontrivial": tot_ok,
                 "rule": "one evaluation = one execution path of the real code explored by CrossHair "
                         "(distinct by construction: the solver never revisits a path; a path stands for all "
-                        "inputs that take the same branches). Non-trivial = the precondition (well-formed "
-                        "input inside the bound) held, the real functions ran and the oracle judged the result.",
+                        "inputs that take the same branches). distinct_nontrivial counts the paths on which the precondition "
+                        "(well-formed input inside the bound) held, the real functions ran to completion and the oracle "
+                        "judged their result (paths whose input the harness excludes from the claim, e.g. a discontinuous "
+                        "tree for a bracket-only condition, are explored but not counted).",
                 "samples": samples or [{"note": "no completed path"}],
                 "obligations": obligations, "discharged": discharged, "inconclusive": len(inconclusive),
                 "exhaustive": bool(obligations and discharged == obligations),
